@@ -239,6 +239,16 @@ impl<'a> Alloc<'a> for LLFree<'a> {
             c.free_frames += lc.free_frames;
             c.alloc_frames += lc.alloc_frames;
         }
+        // Frames of local reservations are free, not allocated
+        for class in (0..Class::LEN).map(Class) {
+            for local in 0..self.locals.class_locals(class).unwrap_or(0) {
+                if let Some(Reservation { row, free, .. }) = self.locals.load(class, local) {
+                    let (tree_class, _, _) = self.trees.stats_at(row.as_tree());
+                    let alloc = &mut stats.classes[tree_class.0 as usize].alloc_frames;
+                    *alloc = alloc.saturating_sub(free);
+                }
+            }
+        }
         stats
     }
 
